@@ -187,7 +187,9 @@ def run_wellformed(c):
                             s2 += mpmath.sqrt(mpmath.mpf(d2.numerator) / mpmath.mpf(d2.denominator))
                         total2 += s2 * mpmath.mpf(G.exp_weight(e))
                     wl2 = nl.wire_length
-                    if abs(mpmath.mpf(wl2) - total2) > mpmath.mpf(1e-9) * (abs(total2) + mpmath.mpf(float(scale)) * mpmath.mpf(1e-3)) + noise + mpmath.mpf(1e-12) * abs(total2):
+                    coord2 = max([abs(v) for p in now.values() if p is not None for v in p] + [Fr(0)])  # (the rounding term, for the new centres)
+                    noise2 = mpmath.mpf(1e-13) * mpmath.mpf(float(coord2)) * sum(mpmath.mpf(G.exp_weight(e)) * len(e["m"]) for e in model["nets"])
+                    if abs(mpmath.mpf(wl2) - total2) > mpmath.mpf(1e-9) * (abs(total2) + mpmath.mpf(float(scale)) * mpmath.mpf(1e-3)) + noise + noise2:
                         raise Violation("after create_squares() and new centres for the modules without rectangles, wire_length = %r; the centres and "
                                         "nets give %s (it was %s before the centres were changed)" % (wl2, mpmath.nstr(total2, 15), mpmath.nstr(total, 15)),
                                         "wire-length-after-relocation")
